@@ -1,6 +1,7 @@
 """C19 — codecs, checksums, MD5, AES (DESIGN §4 C19)."""
 from tbxlint.facts import extract, AnalysisBroken, MODULES
 from tbxlint import locks, q, refs, ival, rd, absint
+from rules import C19_bounds
 
 SCOPE = ['util/base64.cpp', 'util/string.cpp', 'util/scalable_integer.cpp', 'util/serializer.cpp', 'util/crc.cpp', 'util/checksum.cpp',
          'http/url.cpp', 'crypto/md5.cpp', 'crypto/aes.cpp']
@@ -886,4 +887,6 @@ def run(ctx):
     ctx.guard(r9, ctx, prog)
     ctx.guard(r10, ctx, prog)
     ctx.guard(r11, ctx, prog)
+    ctx.guard(C19_bounds.r12, ctx, prog)
+    ctx.guard(C19_bounds.r13, ctx, prog)
     return prog
